@@ -98,15 +98,26 @@ def run_shard(shard, ctx):
     results = {}
     pairs = list(itertools.combinations(range(len(GRID)), 2))
     for (ia, ib) in pairs:
-        for limmode in ("percomp", "scalar"):
+        for limmode in ("percomp", "scalar", "mixed"):
             if limmode == "scalar" and R > 1 and (ia, ib) not in ((0, 4), (3, 6), (4, 8)):
                 continue
             if limmode == "scalar" and R == 1:
                 continue
+            # mixed: limit ARRAYS in which the same side is infinite for some components and finite for others
+            if limmode == "mixed" and (R == 1 or ia == 0 or ib == len(GRID) - 1 or (ia + ib) % 3 != 0):
+                continue
             if not ctx.case(dict(ia=ia, ib=ib, lim=limmode)):
                 continue
             facts = dict(ia=ia, ib=ib, lim=limmode, lower_inf=ia == 0, upper_inf=ib == len(GRID) - 1)
-            if limmode == "percomp":
+            IA = [ia] * R
+            IB = [ib] * R
+            if limmode == "mixed":
+                IA = [ia if r % 2 == 0 else 0 for r in range(R)]
+                IB = [ib if r % 3 != 1 else len(GRID) - 1 for r in range(R)]
+                lo = np.array([mu[r] + GRID[IA[r]] * sg[r] for r in range(R)])[:, None]
+                hi = np.array([mu[r] + GRID[IB[r]] * sg[r] for r in range(R)])[:, None]
+                kw = dict(lower_limit=J(lo), upper_limit=J(hi))
+            elif limmode == "percomp":
                 lo = (mu + GRID[ia] * sg)[:, None]
                 hi = (mu + GRID[ib] * sg)[:, None]
                 kw = {}
@@ -138,8 +149,8 @@ def run_shard(shard, ctx):
             def refk(k):
                 vals, cert = [], True
                 for r in range(R):
-                    if limmode == "percomp":
-                        v, c = ref_int(r, ia, ib, k)
+                    if limmode in ("percomp", "mixed"):
+                        v, c = ref_int(r, IA[r], IB[r], k)
                     else:
                         q1 = quad(lambda x: x ** k * u(r)(x), lo[r, 0], hi[r, 0], mu[r], sg[r], 16)
                         v = quad(lambda x: x ** k * u(r)(x), lo[r, 0], hi[r, 0], mu[r], sg[r], 32)
